@@ -120,7 +120,11 @@ def s2_handler(ctx):
     elif is_getter(ask, 'get_asset_latest_bid_price'):
         # documented shortcut: (bid, bid) is the ask only while every data source constructs Ask == Bid
         same_col = ask_equals_bid_by_construction(ctx)
-        ctx.require(same_col, 'C05.S2', 'the quote returns (bid, bid): sound only while the data source builds Ask identical to Bid', fn.site(),
+        if same_col is None:
+            ctx.undecided('C05.S2', 'the quote returns (bid, bid): sound only while the data source builds Ask identical to Bid', fn.site(),
+                          'the converter builds its columns in a way this rule does not read')
+        else:
+            ctx.require(same_col, 'C05.S2', 'the quote returns (bid, bid): sound only while the data source builds Ask identical to Bid', fn.site(),
                     'the data source no longer builds Ask as a copy of the same price as Bid - buys would be priced at the bid', key='C05.S2|ask-shortcut')
     else:
         ctx.violation('C05.S2', 'the second component of the quote is the latest ask at (dt, asset)', fn.site(), fmt(ask), key='C05.S2|ask')
@@ -144,6 +148,8 @@ def ask_equals_bid_by_construction(ctx):
     """C06-S5 fact: on every path of the converter the 'Bid' and 'Ask' columns are the same expression."""
     from .c06 import bid_ask_columns
     cols = bid_ask_columns(ctx)
+    if cols and all(not c for c in cols):
+        return None          # the columns are not built by column assignment: not read by this rule
     return bool(cols) and all(set(c) == {'Bid', 'Ask'} and c['Bid'] == c['Ask'] for c in cols)
 
 
